@@ -9,6 +9,7 @@ def leaf_src(kind, i):
         "div": f"(1 / x{i} == 1)", "idx": f"([1, 0][x{i}] == 1)", "key": f"{{1: true, 2: false}}[x{i}]",
         "bool": f"x{i}", "int": f"x{i}", "undecl": f"nope{i}", "noov": f"('a' < x{i})",
         "map": f"([x{i}].map(y, 1 / y)[0] == 1)",
+        "ovf": f"(int(1.0 / 0.0) == x{i})", "conv": f"(int('1a') == x{i})", "uint": f"(uint(x{i}) == 1u)",
     }[kind]
 
 
@@ -25,6 +26,8 @@ def leaf_class(kind, x):
         return (T if x else F), None
     if kind == "int":
         return N, x
+    if kind == "uint":
+        return (T if x == 1 else E if x < 0 else F), None
     return E, None
 
 
